@@ -331,8 +331,11 @@ def opOfStr (t : String) : Option Op :=
     | none => none
   | [] => none
 
+/-- `L` (quic: the peer's stream limit is reached) is not an event of the close protocol: an exchange that waits
+    for stream credit is an exchange waiting on its connection — it ends with its context (`c<e>`) or with the
+    connection (`C`), and the connection stays in the transport's hands meanwhile. -/
 def opsOfStr (s : String) : Option (List Op) :=
-  if s == "-" then some [] else (s.splitOn ",").mapM opOfStr
+  if s == "-" then some [] else ((s.splitOn ",").filter (· != "L")).mapM opOfStr
 
 def strOfNats (l : List Nat) : String :=
   if l.isEmpty then "-" else ",".intercalate (l.map toString)
